@@ -73,6 +73,29 @@ check("C11", "exploration",
       "repeated-application histories", "DESIGN.md §3 C11")
 
 
+check("C10", "exploration",
+      "Differential simulation across real interpreters: a seeded set of operations (parsers on partially / permuted "
+      "documented signatures, all emitters, the file commands on private project copies) is run in K fresh interpreters "
+      "with K different PYTHONHASHSEED values (incl. 'random') and K different seeded call histories with repetitions; "
+      "every occurrence of an operation must hash to the same canonical outcome (order-preserving). Disagreements are "
+      "reduced to two interpreters, classified as hash-seed or call-history dependence, and the preceding calls are "
+      "delta-debugged.",
+      "Inputs, seeds and histories are sampled; directory-enumeration order is not varied; for raising operations only "
+      "the exception type is compared.",
+      "deterministic simulation: multi-interpreter differential over hash seeds x seeded call histories", "DESIGN.md §3 C10")
+
+check("C18", "exploration",
+      "Import histories after a simulated interpreter restart: every module as first import in a real fresh interpreter "
+      "(exhaustive, both tiers); ordered pairs in both orders after an in-process restart with H1 (imports succeed) and H2 "
+      "(same public names in either order) — all pairs in the thorough tier (exhaustive: true), anchor pairs plus a "
+      "seeded sample in the quick tier, 5% cross-checked in real interpreters; seeded longer histories in two "
+      "permutations. Failing histories are minimised and confirmed in real interpreters.",
+      "The in-process restart (sys.modules purge) is a stub of a real restart, validated against real interpreters in "
+      "every run; third-party modules stay loaded.",
+      "deterministic simulation: interpreter-restart model, exhaustive singles/pairs + seeded import histories",
+      "DESIGN.md §3 C18")
+
+
 def main():
     man = {
         "version": 1,
@@ -107,7 +130,7 @@ def main():
 
 
 PENDING = {k: "check under construction in this session (designed in DESIGN.md §3); not yet claimed"
-           for k in ("C10", "C12", "C13", "C16", "C17", "C18", "C19")}
+           for k in ("C12", "C13", "C16", "C17", "C19")}
 
 if __name__ == "__main__":
     main()
